@@ -254,7 +254,8 @@ class C16:
 
     def conformance_picks(self, seed):
         k = 1499 + seed % 29
-        return [c for i, c in enumerate(self.single_cases('quick')) if i % k == seed % k][:30]
+        return [c for i, c in enumerate(self.single_cases('quick')) if i % k == seed % k][:30] + \
+            [['enc', 'latin-1', 1], ['enc', 'cp1252', 3], ['enc', 'utf-8', 0]]
 
     def finish(self, ctx):
         self.init_worker()
@@ -266,7 +267,30 @@ class C16:
             viol += [(case, v) for v in vs]
         return {'conformance_replays': n, 'viol': viol}
 
+    def conformance_enc(self, case):
+        """a source file in another encoding (--encoding): the report is UTF-8 as its header says, and still shows the source"""
+        _, enc, ci = case
+        tex = 'Gr\u00f6\u00dfe x\nzwei \u00e4 <b>\ndrei\n'
+        ms = [(0, 5), (tex.index('zwei'), 6)]
+        ans = shell.lt_answer([mk(i, tex, o, l) for i, (o, l) in enumerate(ms)])
+        d = os.path.join(core.scratch_dir(), 'cli16e')
+        rc, cout, cerr, args = shell.run_cli(['--plain-input', '--encoding', enc, '--output', 'html', '--context', str(CONTEXTS[ci]), 'e.tex'],
+                                             {'e.tex': tex.encode(enc)}, {}, ans, d)
+        det = {'encoding': enc, 'source': tex, 'rc': rc, 'stderr': cerr[-300:]}
+        try:
+            out = cout.decode('utf-8')
+        except UnicodeDecodeError as e:
+            return 1, [{'clause': 'the HTML report is UTF-8, as its header declares', 'sig': 'C16:encoding:not-utf8',
+                        'detail': dict(det, problem=str(e)[:200], report=cout[:300].decode('latin-1'))}]
+        if rc != 0 or 'charset="UTF-8"' not in out:
+            return 1, [{'clause': 'report is written', 'sig': 'C16:encoding:no-report', 'detail': dict(det, report=out[:300])}]
+        pr = judge_html(out, tex, ms, CONTEXTS[ci])
+        return 1, [{'clause': 'HTML report reproduces the source also for a source file in another encoding', 'sig': 'C16:encoding:%s' % k,
+                    'detail': dict(det, problem=dd, report=out[:800])} for k, dd in pr[:1]]
+
     def conformance_one(self, case):
+        if case[0] == 'enc':
+            return self.conformance_enc(case)
         si, ms, ci = case
         tex = SOURCES[si] if SOURCES[si].endswith('\n') else SOURCES[si] + '\n'
         sess = self.session(si, ci)
